@@ -16,7 +16,7 @@ overwritten - during the current protocol step).  Scenarios:
 """
 from effects import Effects
 from facts import EngineError
-from mir import AP
+from mir import AP, callee_of, strip_generics
 
 WORKER = "vibrato::tokenizer::worker::Worker"
 TOKEN = "vibrato::token::Token"
@@ -333,6 +333,7 @@ def run(ctx, scope="tokens"):
                        "function that clears all of its elements (%s)"
                        % (".".join(proj), e.kind, owner.split("::")[-1]))
     ctx.floor("RESET", "pool accesses", npool, 2)
+    prefix_readers(ctx, crate, E)
     if E.unmodelled:
         raise EngineError("UNMODELLED callee receives a tracked &mut location: %s"
                           % E.unmodelled[:3])
@@ -340,6 +341,72 @@ def run(ctx, scope="tokens"):
                "their receiver; dependencies' internals are not analysed")
     ctx.assume("W2 accepts two forms: the location is refreshed by reset_sentence/tokenize, or "
                "the observer branches on the same emptiness predicate as tokenize's early return")
+
+
+def prefix_readers(ctx, crate, E):
+    """RESET-PREFIX: when a pool is cleared only over the prefix the new sentence uses
+    (`iter_mut().take(new_len)`), elements beyond the prefix keep nodes of earlier sentences. That
+    is sound only while every reader addresses the pool by position inside the prefix. A reader
+    that walks the *whole* pool (`for v in &self.ends`, `.iter().skip(1)` ...) sees the stale
+    tail: each edit looks harmless alone."""
+    from mir import callee_paths as cps
+    for (kp, coll, bound) in E.prefix_kills:
+        # which field of which type is handed to the prefix-clearing function?
+        fields = set()
+        for p, f in crate.fns.items():
+            if not f.body:
+                continue
+            fa = E.fa(p)
+            for b, t in fa.calls():
+                c = callee_of(t)
+                rp = (c.get("resolved") or c)["path"] if c else None
+                if rp is None or strip_generics(rp) != strip_generics(kp):
+                    continue
+                if coll.root[0] == "arg" and coll.root[1] - 1 < len(t["args"]):
+                    ap = E.ap_operand(fa, t["args"][coll.root[1] - 1])
+                    if ap is not None and ap.proj:
+                        fields.add(ap.proj[-1])
+                if p == kp:
+                    continue
+            if p == kp and coll.root[0] == "arg" and coll.proj:
+                fields.add(coll.proj[-1])
+        if not fields and coll.proj:
+            fields.add(coll.proj[-1])
+        readers = []
+        for p, f in sorted(crate.fns.items()):
+            if not f.body or f.krate != crate.name or strip_generics(p) == strip_generics(kp):
+                continue
+            fa = E.fa(p)
+            for b, t in fa.calls():
+                if not any(strip_generics(x).endswith("::next") for x in cps(t)):
+                    continue
+                # iterator chain back to a field
+                chain = []
+                cur = t["args"][0]
+                src = None
+                for _ in range(12):
+                    o = fa.origin(cur)
+                    if o[0] == "call":
+                        chain.append(strip_generics(sorted(cps(o[2]))[0]).rsplit("::", 1)[-1])
+                        if not o[2]["args"]:
+                            break
+                        cur = o[2]["args"][0]
+                        continue
+                    if o[0] == "place":
+                        src = o[1]
+                    break
+                if src is None or not src.proj or src.proj[-1] not in fields:
+                    continue
+                if "index" in chain or "get" in chain or "take" in chain:
+                    continue       # a positional slice / bounded walk
+                readers.append("%s (%s)" % (p.split("::")[-1], fa.loc(b)))
+        ctx.ob("RESET-PREFIX", "%s|%s" % (kp, ".".join(str(x) for x in fields)), not readers,
+               crate.fns[kp].file + ":" + str(crate.fns[kp].line),
+               "`%s` is cleared over the prefix take(%s) only, and no function walks it as a whole"
+               % ("/".join(sorted(fields)), bound) if not readers else
+               "`%s` is cleared over the prefix take(%s) only, but %s iterates over the whole "
+               "vector: elements beyond the prefix still hold nodes of an earlier, longer sentence"
+               % ("/".join(sorted(fields)), bound, ", ".join(readers)))
 
 
 def run_tokens(ctx):
